@@ -353,6 +353,27 @@ impl Part for ViaPackets {
                 (_, Ok(None)) => fail!("harness:frame", "incomplete"),
             }
         }
+        // IS_MAL: a list of mod ids - here every 4-byte value is a mod id (also all zeros and car-like names), and the frame
+        // re-encodes to the identical bytes
+        {
+            let other = [c[0] ^ 0xFF, 0x02, 0x03, 0x04];
+            let mut f = vec![16u8, 65, 0, 2, 0, 0, 0, 0];
+            f.extend_from_slice(c);
+            f.extend_from_slice(&other);
+            let mut b = bytes::BytesMut::from(&f[..]);
+            let r = guard(|| codec.decode(&mut b)).map_err(|p| Fail::new("c13:panic", format!("Mal {c:02x?}: {p}")))?;
+            match r {
+                Ok(Some(p)) => {
+                    let d = format!("{p:?}");
+                    let shown = format!("MOD({:06X})", u32::from_le_bytes(*c));
+                    ensure!(d.contains(&shown), "c13:packet-path-differs", "Mal: {c:02x?} expected `{shown}` in {d}");
+                    let back = guard(|| codec.encode(&p)).map_err(|p| Fail::new("c13:panic", format!("Mal {c:02x?}: re-encoding {d}: {p}")))?.map_err(|e| Fail::new("c13:reencode-error", format!("Mal: {e}")))?;
+                    ensure!(back[..] == f[..], "c13:reencode-differs", "Mal: {} -> {}", hex(&f), hex(&back));
+                },
+                Ok(None) => fail!("harness:frame", "incomplete"),
+                Err(e) => fail!("c13:valid-id-rejected", "Mal: {c:02x?} rejected: {e}"),
+            }
+        }
         if c[3] == 0 {
             ev.nontrivial(c);
         }
